@@ -266,6 +266,8 @@ def make_triples(ctx, comp, rng, n):
         ns2 = domain_state(comp, rng)
         if ns2 is not None:
             out.append((s, a, ns2, False))
+        if rng.random() < 0.15:
+            out.append((s, a, s, False))  # the very same object as state and next state (a step that changes nothing)
     return out
 
 
